@@ -246,11 +246,13 @@ fn check_cand(c: &CandCase, ctx: &mut Ctx) {
     let sb = me.to_bytes();
     let mut by_self: Vec<(U256, PeerId)> = inserted.iter().map(|p| (ref_distance(&sb, &p.to_bytes()), *p)).collect();
     by_self.sort_by(|a, b| a.0.cmp(&b.0));
-    let mut want_k = vec![me];
-    want_k.extend(by_self.iter().map(|x| x.1));
-    want_k.truncate(20);
-    if k_view != want_k {
-        ctx.fail("closest_k_local_peers_differ_from_reference", format!("got {} peers, reference {}", k_view.len(), want_k.len()));
+    // the K closest known peers in ascending distance (whether the node lists itself in front is
+    // not part of the statement: compare the other entries, K = 20 with or without self)
+    let others: Vec<PeerId> = k_view.iter().copied().filter(|p| *p != me).collect();
+    let want_others: Vec<PeerId> = by_self.iter().map(|x| x.1).take(others.len()).collect();
+    let full = by_self.len().min(19);
+    if others != want_others || others.len() < full || others.len() > 20 {
+        ctx.fail("closest_k_local_peers_differ_from_reference", format!("got {} peers (besides self), {} known; not the nearest in ascending order", others.len(), by_self.len()));
     }
     // GetCloseGroupLocalPeers: the 5 nearest to the key, ascending
     let (tx, mut rx) = oneshot::channel();
